@@ -153,6 +153,9 @@ func runContainers(r *core.Run, prop string) {
 	}
 	rows := map[int]map[string]map[string]cell{}
 	for i := range obs {
+		if obs[i].Skipped {
+			continue // not executed: the run had already met many calls that do not return
+		}
 		o, op, inf := &obs[i], &ops[i], info[i]
 		it := &items[inf.item]
 		tag := inf.ce.Cont + "/" + inf.ce.Entry
